@@ -117,6 +117,18 @@ class _Audit:
     events = []
 
 
+def _in_import():
+    """True when the event is raised underneath the import machinery (numpy imports sub-packages lazily on first use)."""
+    f = sys._getframe(2)
+    depth = 0
+    while f is not None and depth < 60:
+        if f.f_code.co_filename.startswith("<frozen importlib"):
+            return True
+        f = f.f_back
+        depth += 1
+    return False
+
+
 def _hook(event, args):
     if not _Audit.active:
         return
@@ -124,7 +136,8 @@ def _hook(event, args):
         path, mode = (list(args) + [None, None])[:2]
         m = str(mode or "r")
         if any(c in m for c in "wax+"):
-            _Audit.events.append(("open-for-write", str(path), m))
+            if not _in_import():
+                _Audit.events.append(("open-for-write", str(path), m))
         else:
             _Audit.events.append(("open", str(path), m))
         return
@@ -132,6 +145,8 @@ def _hook(event, args):
         # lazy imports inside numpy are legitimate; record only for information
         return
     if event.startswith(_WATCH_PREFIX) and event not in _IGNORE:
+        if _in_import():
+            return
         _Audit.events.append((event, repr(args)[:120]))
 
 
